@@ -446,7 +446,7 @@ Plan gen_crash(uint64_t seed, const string &prop) {
         if (logpos > 40000 && nwrites <= align_at) pos_known = false; // too close to the memtable switch to predict
       }
     } else if (c < 84) o.kind = O_FLUSH, o.tid = 0;
-    else if (c < 91) { o.kind = O_COMPACT_RANGE; o.a = (int)r.below(3); o.tid = 0; }
+    else if (c < 91) { o.kind = O_COMPACT_RANGE; o.a = (int)r.below(r.chance(0.3) ? 6 : 3); o.tid = 0; }
     else if (c < 93) { o.kind = O_COMPACT; o.tid = 0; }
     else if (c < 97 && nthreads == 1) { o.kind = O_REOPEN; o.tid = 0; }
     else { o.kind = O_GET; char kb[48]; snprintf(kb, sizeof kb, "w%d/k%03d", o.tid, (int)r.below(nkeys)); o.key = kb; }
